@@ -677,6 +677,33 @@ func runC17(tier string, seed int64, outdir string, replay string) error {
 			c17FirstThrottle(w, plans, true)
 			return nil
 		}
+		if cl == "reconfigure-under-load" {
+			var sp c17StressPlan
+			if err := json.Unmarshal(rc.In, &sp); err != nil {
+				return err
+			}
+			// the failure needs a race: the recorded parameters, up to 20 rounds, stop at the first failing one
+			for i := 0; i < 20; i++ {
+				o := c17StressRound(sp)
+				if !(o.CfgReturned && o.Probe && o.FinalReturned && o.Admitted <= sp.N) || i == 19 {
+					c17StressEmit(w, sp, o, i)
+					break
+				}
+			}
+			return nil
+		}
+		if cl == "e2e-throttle" {
+			var ep c17E2EPlan
+			if err := json.Unmarshal(rc.In, &ep); err != nil {
+				return err
+			}
+			c17E2E(w, []c17E2EPlan{ep})
+			return nil
+		}
+		if cl == "race-detector-stress" {
+			c17RaceEmit(w, c17RaceDetector())
+			return nil
+		}
 		var p c17Plan
 		if err := json.Unmarshal(rc.In, &p); err != nil {
 			return err
@@ -695,6 +722,14 @@ func runC17(tier string, seed int64, outdir string, replay string) error {
 		}
 		fplans = append(fplans, c17FirstPlan{N: 0, WindowS: 0, Callers: 8, DeadlineMs: 100}, c17FirstPlan{N: 40, WindowS: 3600, Callers: 16, DeadlineMs: 100})
 		c17FirstThrottle(w, fplans, false)
+		// the loop goroutine against the setters under load (also before the timing-sensitive part)
+		c17Stress(w, c17StressPlans(tier))
+		if tier == "thorough" {
+			c17RaceEmit(w, c17RaceDetector())
+		}
+		// first attempts through the real ACMEIssuer against a mock ACME CA (sets the package
+		// variables RateLimitEvents / RateLimitEventsWindow: nothing else runs meanwhile)
+		c17E2E(w, c17E2EPlans(tier))
 		for i, c := range c17Corpus() {
 			jobs = append(jobs, job{c.class, c.plan, seed*1000 + int64(i)})
 		}
